@@ -40,24 +40,29 @@ def census(v, ok_callable_ids, out=None, seen=None, path='$', limit=3):
     return out
 
 
-def mutable_ids(v, seen=None):
-    """ids of all lists/dicts (and other non-scalar containers) reachable from v"""
+def mutable_ids(v, seen=None, stop=None):
+    """ids of all lists/dicts (subclasses included: OrderedDict, defaultdict, list subclasses) reachable from v; tuples are walked through.
+    Iterative, so that containers nested deeper than the interpreter's recursion limit are walked too.  `stop`: a container whose id is
+    recorded but which is not descended into."""
     if seen is None:
         seen = set()
-    t = type(v)
-    if t is list or t is tuple:
-        if id(v) in seen:
-            return seen
-        if t is list:
+    todo = [v]
+    while todo:
+        v = todo.pop()
+        if isinstance(v, list):
+            if id(v) in seen:
+                continue
             seen.add(id(v))
-        for x in v:
-            mutable_ids(x, seen)
-    elif t is dict:
-        if id(v) in seen:
-            return seen
-        seen.add(id(v))
-        for x in v.values():
-            mutable_ids(x, seen)
+            if v is not stop:
+                todo.extend(list.__iter__(v))
+        elif isinstance(v, tuple):
+            todo.extend(v)
+        elif isinstance(v, dict):
+            if id(v) in seen:
+                continue
+            seen.add(id(v))
+            if v is not stop:
+                todo.extend(dict.values(v))
     return seen
 
 
